@@ -117,7 +117,12 @@ def raw_strategy(tier):
             return False
         return not any(v["parent"] is not None and v["parent"] > i for i, v in bm.nodes.items())
 
-    return st.fixed_dictionaries({"a": hist(12), "b": hist(16 if tier == "quick" else 25, 5).filter(parent_first), "parent": st.integers(0, 20)})
+    reuse = st.fixed_dictionaries({"root": st.sampled_from(["dfg", "module"]), "steps": store.reuse_mutations(20)})
+    # a host with several free indices at insertion time: additions, then deletions only
+    adds = st.lists(st.tuples(st.just("add_node"), st.sampled_from(store.OP_POOL), store.SEL, st.one_of(st.none(), st.integers(0, 3)), store.META).map(list), min_size=5, max_size=12)
+    dels = st.lists(st.tuples(st.just("delete_node"), store.SEL).map(list), min_size=2, max_size=5)
+    holes = st.tuples(adds, dels).map(lambda t: {"root": "dfg", "steps": t[0] + t[1]})
+    return st.fixed_dictionaries({"a": st.one_of(hist(12), reuse, holes, holes), "b": hist(16 if tier == "quick" else 25, 5).filter(parent_first), "parent": st.integers(0, 20)})
 
 
 # ------------------------------------------------------------------ builder wrappers
